@@ -224,7 +224,7 @@ func vpC04GobMap(rounds int) {
 	vpReach("end")
 }
 
-func vpH_C04_gobmap()  { vpC04GobMap(1) }
+func vpH_C04_gobmap() { vpC04GobMap(1) }
 
 // streams of the other wire shapes the decoders sniff: lists of streams, lists of IRIs, a bare value
 func vpH_C04_gobshapes() {
